@@ -62,7 +62,7 @@ type Frame struct {
 	regs   []Value
 	defers []deferRec
 	// where the result goes in the caller: register index, or -1
-	retReg int
+	retReg     int
 	recovered  bool // a deferred call of this frame recovered a panic
 	symLoop    bool // a symbolic branch was taken in this activation (loop iterations are counted from then on)
 	curCall    *ssa.Call
@@ -104,18 +104,18 @@ const (
 )
 
 type Coro struct {
-	id       int
-	frames   []*Frame
-	status   CoroStatus
-	blockOn  string // description
-	panicVal Value  // non-nil while panicking
-	inPanic  bool
+	id          int
+	frames      []*Frame
+	status      CoroStatus
+	blockOn     string // description
+	panicVal    Value  // non-nil while panicking
+	inPanic     bool
 	unwindDepth int
 	panicWhere  string
-	name     string
-	manual   bool // only runs when the harness says so (vhRun)
-	tried    bool
-	result   Value
+	name        string
+	manual      bool // only runs when the harness says so (vhRun)
+	tried       bool
+	result      Value
 }
 
 func (c *Coro) clone() *Coro {
@@ -132,7 +132,7 @@ type InputRec struct {
 	Kind string // int64, byte, bool, choose, bytes...
 	W    uint8
 	Vars []*Term // symbolic variables (nil for forking choices)
-	Val  int64 // concrete choice value (for forking choices)
+	Val  int64   // concrete choice value (for forking choices)
 }
 
 type Heap struct {
@@ -157,25 +157,27 @@ type State struct {
 	maxSteps int64
 	unwind   int
 	// outcome
-	done     bool
-	fail     *Failure
-	lockset  map[string]bool // currently held mutexes (by pointer key), for guard checks
-	clock    *Term           // current symbolic time (ns, int64)
-	nVar     int
-	depth    int
-	trace    []string
-	tag      string
-	guards   map[string]guardDecl
-	guardOn  bool
-	assumeOK bool
-	blockedStreak int
-	runStack      []int
-	spawned       []int
-	manualSpawn   bool
-	mapOrderAll   bool
-	allocHook     func(ex *Exec, st *State, n *Term, elem types.Type, why string) bool
+	done            bool
+	fail            *Failure
+	lockset         map[string]bool // currently held mutexes (by pointer key), for guard checks
+	clock           *Term           // current symbolic time (ns, int64)
+	nVar            int
+	depth           int
+	trace           []string
+	tag             string
+	guards          map[string]guardDecl
+	guardOn         bool
+	assumeOK        bool
+	blockedStreak   int
+	runStack        []int
+	spawned         []int
+	manualSpawn     bool
+	mapOrderAll     bool
+	allocHook       func(ex *Exec, st *State, n *Term, elem types.Type, why string) bool
 	poolAdversarial bool
+	hasSymLen       bool // a slice with symbolic length exists on this path (see forceSymLens)
 	allocLimit      int
+	splitCap        int // overrides Config.SplitCap when > 0 (vhSplitCap)
 	concreteClock   bool
 	noAutoFire      bool
 	crcMismatch     bool
